@@ -255,9 +255,14 @@ void HttpMessage::readHeaders()
 
 	while (line = _socket->readLine(), line != "\r")
 	{
-		if (isspace(line[0])) // multiline
+		if (isspace(line[0])) // multiline: each continuation line is joined to the field value with one space (RFC 7230 3.2.4)
 		{
-			setHeader(headerName, headerValue + line.trimmed());
+			String more = line.trimmed();
+			if (more.ok())
+			{
+				headerValue = headerValue.ok() ? headerValue + ' ' + more : more;
+				setHeader(headerName, headerValue);
+			}
 			continue;
 		}
 		line.trim();
